@@ -218,6 +218,151 @@ def mutate(rng, text):
 
 
 # ------------------------------------------------------------------------------------------------
+# systematic families (no PRNG needed for the cross products; the PRNG only picks samples / positions)
+# ------------------------------------------------------------------------------------------------
+
+SUPPORTED_LOGICS = ["QF_UF", "QF_LRA", "QF_LIA", "QF_RDL", "QF_IDL", "QF_UFLRA", "QF_UFLIA", "QF_UFRDL", "QF_UFIDL", "QF_AX",
+                    "QF_ALRA", "QF_ALIA", "QF_AUFLRA", "QF_AUFLIA", "QF_AUFLIRA", "ALL", "QF_BV", "QF_UFBV", "QF_LIRA", "QF_NRA", "QF_FOO"]
+OPTIONS = [None, ":produce-models", ":produce-interpolants", ":produce-unsat-cores", ":produce-proofs", ":produce-assignments",
+           ":print-success", ":minimal-unsat-cores", ":print-cores-full", ":global-declarations"]
+QUERY_FOR = {":produce-models": ["(get-model)", "(get-value (p))"], ":produce-interpolants": ["(get-interpolants n1 n2)"],
+             ":produce-unsat-cores": ["(get-unsat-core)"], ":produce-proofs": ["(get-proof)"], ":produce-assignments": ["(get-assignment)"],
+             ":minimal-unsat-cores": ["(get-unsat-core)"], ":print-cores-full": ["(get-unsat-core)"]}
+
+
+def logic_profile(lg):
+    """what a normal script may use under the logic name (as the front end understands it)"""
+    arith = None
+    if any(x in lg for x in ("LIA", "IDL")) and "LIRA" not in lg:
+        arith = "Int"
+    elif any(x in lg for x in ("LRA", "RDL", "LIRA", "NRA")) or lg == "ALL":
+        arith = "Real"
+    uf = ("UF" in lg and "BV" not in lg) or lg in ("ALL",) or lg.startswith("QF_AUF")
+    arrays = lg.startswith("QF_A") or lg == "ALL"
+    sorts = lg in ("QF_UF", "QF_AX", "ALL") or uf or arrays
+    return dict(arith=arith, uf=uf, arrays=arrays, sorts=sorts)
+
+
+def normal_body(lg, sat=True):
+    """a well-sorted command sequence for the logic: declarations, named assertions, push/pop, check-sat"""
+    pr = logic_profile(lg)
+    c = ["(declare-fun p () Bool)", "(declare-fun q () Bool)"]
+    a = ["(assert (! (or p q) :named n1))"]
+    if pr["sorts"]:
+        c += ["(declare-sort U 0)", "(declare-fun a () U)", "(declare-fun b () U)"]
+        a += ["(assert (= a b))"]
+    if pr["uf"] and pr["sorts"]:
+        c += ["(declare-fun f (U) U)"]
+        a += ["(assert (= (f a) (f b)))"]
+    if pr["arith"]:
+        t = pr["arith"]
+        c += ["(declare-fun x () %s)" % t, "(declare-fun y () %s)" % t]
+        a += ["(assert (<= (- x y) 3))", "(assert (< (- y x) 2))"]
+    if pr["arrays"] and pr["sorts"]:
+        c += ["(declare-sort I 0)", "(declare-sort E 0)", "(declare-fun arr () (Array I E))", "(declare-fun i () I)", "(declare-fun e () E)"]
+        a += ["(assert (= (select (store arr i e) i) e))"]
+    a += ["(push 1)", "(assert (! (not q) :named n2))" if sat else "(assert (! (and (not p) (not q)) :named n2))", "(check-sat)"]
+    return c + a
+
+
+def option_logic_script(opt, lg, rng=None, val="true", query=True, again=False):
+    cmds = []
+    if opt:
+        cmds.append("(set-option %s %s)" % (opt, val))
+    cmds.append("(set-logic %s)" % lg)
+    body = normal_body(lg, sat=opt not in (":produce-interpolants", ":produce-unsat-cores", ":produce-proofs", ":minimal-unsat-cores", ":print-cores-full"))
+    cmds += body
+    if query and opt in QUERY_FOR:
+        cmds += [(rng.choice(QUERY_FOR[opt]) if rng else QUERY_FOR[opt][0])]
+    cmds += ["(pop 1)", "(check-sat)"]
+    if again:
+        cmds += ["(set-logic %s)" % lg, "(check-sat)"]
+    return "\n".join(cmds) + "\n"
+
+
+def sort_universe(lg):
+    """declarations + for each sort name some well-sorted terms (the generator's knowledge, used as the oracle)"""
+    pr = logic_profile(lg)
+    d = ["(declare-fun p () Bool)", "(declare-fun q () Bool)", "(declare-fun r () Bool)"]
+    T = {"Bool": ["p", "q", "r", "(not p)", "true"]}
+    if pr["sorts"]:
+        d += ["(declare-sort U 0)", "(declare-sort V 0)", "(declare-fun a () U)", "(declare-fun b () U)", "(declare-fun c () U)",
+              "(declare-fun u () V)", "(declare-fun v () V)", "(declare-fun w () V)"]
+        T["U"] = ["a", "b", "c"]
+        T["V"] = ["u", "v", "w"]
+        if pr["uf"]:
+            d += ["(declare-fun f (U) U)", "(declare-fun g (U V) Bool)"]
+            T["U"] += ["(f a)"]
+            T["Bool"] += ["(g a u)"]
+    if pr["arith"]:
+        t = pr["arith"]
+        d += ["(declare-fun x () %s)" % t, "(declare-fun y () %s)" % t, "(declare-fun z () %s)" % t]
+        T[t] = ["x", "y", "z", "1", "(+ x 1)"] if "DL" not in lg else ["x", "y", "z"]
+    if pr["arrays"] and pr["sorts"]:
+        d += ["(declare-fun arr () (Array U V))", "(declare-fun arr2 () (Array U V))"]
+        T["(Array U V)"] = ["arr", "arr2", "(store arr a u)"]
+        T["V"] += ["(select arr a)"]
+    return d, T
+
+
+def ill_sorted_script(rng, lg):
+    """one application of an n-ary symbol with exactly one argument of the wrong sort, at a PRNG-chosen position.
+    Returns (text, description) or None when the logic offers no two sorts for the symbol."""
+    d, T = sort_universe(lg)
+    sorts = list(T)
+    pr = logic_profile(lg)
+    cands = []   # (symbol, argument sorts, result sort)
+    for n in (2, 3, 4):
+        for s_ in sorts:
+            cands.append(("=", [s_] * n, "Bool"))
+            cands.append(("distinct", [s_] * n, "Bool"))
+        cands.append(("and", ["Bool"] * n, "Bool"))
+        cands.append(("or", ["Bool"] * n, "Bool"))
+        if pr["arith"] and "DL" not in lg:
+            cands.append(("+", [pr["arith"]] * n, pr["arith"]))
+        if pr["arith"]:
+            cands.append(("<=", [pr["arith"]] * 2, "Bool"))
+            cands.append(("<", [pr["arith"]] * 2, "Bool"))
+    cands.append(("not", ["Bool"], "Bool"))
+    cands.append(("=>", ["Bool", "Bool"], "Bool"))
+    for s_ in sorts:
+        cands.append(("ite", ["Bool", s_, s_], s_))
+    if "U" in T and pr["uf"]:
+        cands.append(("f", ["U"], "U"))
+        cands.append(("g", ["U", "V"], "Bool"))
+    if "(Array U V)" in T:
+        cands.append(("select", ["(Array U V)", "U"], "V"))
+        cands.append(("store", ["(Array U V)", "U", "V"], "(Array U V)"))
+    sym, argsorts, res = rng.choice(cands)
+    k = rng.randrange(len(argsorts))
+    others = [s_ for s_ in sorts if s_ != argsorts[k]]
+    if not others:
+        return None
+    bad_sort = rng.choice(others)
+    args = []
+    for j, s_ in enumerate(argsorts):
+        pool = T[bad_sort] if j == k else T[s_]
+        args.append(rng.choice(pool))
+    if sym in ("=", "distinct") and len(set(args)) < len(args):
+        # keep the arguments different so that no simplification hides the application
+        seen, fixed = set(), []
+        for j, s_ in enumerate(argsorts):
+            pool = [t for t in (T[bad_sort] if j == k else T[s_]) if t not in seen] or (T[bad_sort] if j == k else T[s_])
+            t = rng.choice(pool)
+            seen.add(t)
+            fixed.append(t)
+        args = fixed
+    term = "(%s %s)" % (sym, " ".join(args))
+    if res != "Bool":
+        term = "(= %s %s)" % (term, rng.choice(T[res]))
+    wrap = rng.choice(["%s", "(not %s)", "(or p %s)", "(! %s :named bad)", "(and %s q)"])
+    cmds = ["(set-logic %s)" % lg] + d + ["(assert (or p q))", "(assert %s)" % (wrap % term), "(check-sat)"]
+    if rng.random() < 0.3:
+        cmds.insert(0, "(set-option :produce-models true)")
+    return "\n".join(cmds) + "\n", "%s/%d: argument %d of sort %s where %s is expected, logic %s" % (sym, len(argsorts), k + 1, bad_sort, argsorts[k], lg)
+
+
+# ------------------------------------------------------------------------------------------------
 # classification
 # ------------------------------------------------------------------------------------------------
 
@@ -498,6 +643,25 @@ def run(ctx):
         for _ in range(rng.choice([1, 1, 2, 3])):
             t = mutate(rng, t)
         inputs.append(("regression-mutant", t))
+    # systematic: every option x every logic name, followed by a normal command sequence (file mode; a PRNG sample also as pipe)
+    real_logics = [l for l in SUPPORTED_LOGICS]
+    for lg in real_logics:
+        for opt in OPTIONS:
+            inputs.append(("option-x-logic", option_logic_script(opt, lg, rng), None, "F" if rng.random() < 0.8 else "FP"))
+    # continuing after a rejected set-logic / set-option
+    for _ in range(30 if ctx.quick else 300):
+        lg = rng.choice(real_logics)
+        opt = rng.choice(OPTIONS)
+        t = option_logic_script(opt, lg, rng, val=rng.choice(["true", "true", "false", "3", "foo"]), again=rng.random() < 0.5)
+        if rng.random() < 0.5:
+            t = "(set-logic %s)\n" % rng.choice(["QF_FOO", "FOO", lg]) + t
+        inputs.append(("after-rejected-setup", t, None, "FP"))
+    # ill-sorted applications of n-ary symbols, offending argument at every position: the generator knows the input is ill-sorted
+    il_logics = ["QF_UF", "QF_AX", "QF_UFLRA", "QF_UFLIA", "QF_LRA", "QF_LIA", "QF_ALIA", "QF_AUFLIA", "QF_RDL", "QF_IDL", "QF_ALRA", "QF_AUFLIRA"]
+    for _ in range(160 if ctx.quick else 2500):
+        r = ill_sorted_script(rng, rng.choice(il_logics))
+        if r:
+            inputs.append(("ill-sorted", r[0], "reject:" + r[1], "F" if rng.random() < 0.7 else "FP"))
     if not ctx.quick:
         for f in rng.sample(regs, min(150, len(regs))):
             inputs.append(("regression", open(f, "rb").read().decode("latin-1")))
@@ -512,8 +676,11 @@ def run(ctx):
     prompt_limit = 8.0
     t_limit = 10.0 if ctx.quick else 20.0
     model_lines, model_expect = [], []
-    for kind, text in inputs:
-        for mode in ("F", "P"):
+    for item in inputs:
+        kind, text = item[0], item[1]
+        expect = item[2] if len(item) > 2 else None
+        modes = item[3] if len(item) > 3 else "FP"
+        for mode in modes:
             runner = run_file if mode == "F" else run_pipe
             t0 = time.time()
             rc, out, err = runner(binary, text, t_limit)
@@ -547,6 +714,12 @@ def run(ctx):
                                                                               (r2[2] or err).strip().split("\n")[-1][:160]),
                                   dict(script=small, mode="file" if mode == "F" else "pipe (opensmt -p)", rc=r2[0], stdout=r2[1][:300], stderr=r2[2][:600],
                                        original=text if len(text) < 3000 else text[:3000]))
+            # 1b. the generator injected a sort error: silence is a violation
+            if expect and expect.startswith("reject:") and rc == 0 and not diag:
+                sym = expect[7:].split("/")[0]
+                ctx.violation("silent:ill-sorted-accepted:%s" % sym,
+                              "an ill-sorted term is accepted without a diagnostic, exit status 0 (%s); stdout %r" % (expect[7:], out[:80]),
+                              dict(script=text, mode=mode, injected=expect[7:], stdout=out[:300], rc=rc))
             # 2. diagnostic <-> non-zero status
             if rc in (0, 1):
                 if diag and rc == 0:
